@@ -11,7 +11,9 @@ import (
 	"strings"
 	"testing/iotest"
 
+	"pault.ag/go/debian/changelog"
 	"pault.ag/go/debian/control"
+	"pault.ag/go/debian/deb"
 	"pault.ag/go/debian/dependency"
 
 	"verif/harness/core"
@@ -620,6 +622,42 @@ type embedDSC struct {
 // Changes.GetDSC) however the path is spelled - absolute, relative to the working directory,
 // with redundant components - give a handle whose Filename is the absolute, cleaned path and
 // whose AbsFiles() are absolute paths in the control file's directory.
+// missingFileLaw: every file entry point on a path that does not exist (and on a directory)
+// returns an error and no value; it does not panic
+func missingFileLaw() (verdict string) {
+	defer func() {
+		if r := recover(); r != nil {
+			verdict = fmt.Sprintf("FAIL a file entry point panics on a missing file: %v", r)
+		}
+	}()
+	dir, err := os.MkdirTemp("", "verif-missing-")
+	if err != nil {
+		return "ok"
+	}
+	defer os.RemoveAll(dir)
+	for _, p := range []string{filepath.Join(dir, "no-such-file"), dir, filepath.Join(dir, "a", "b")} {
+		if d, err := control.ParseDscFile(p); err == nil || d != nil {
+			return fmt.Sprintf("FAIL ParseDscFile(%q): value %v, error %v", p, d != nil, err)
+		}
+		if c, err := control.ParseChangesFile(p); err == nil || c != nil {
+			return fmt.Sprintf("FAIL ParseChangesFile(%q): value %v, error %v", p, c != nil, err)
+		}
+		if c, err := control.ParseControlFile(p); err == nil || c != nil {
+			return fmt.Sprintf("FAIL ParseControlFile(%q): value %v, error %v", p, c != nil, err)
+		}
+		if es, err := changelog.ParseFile(p); err == nil || len(es) != 0 {
+			return fmt.Sprintf("FAIL changelog.ParseFile(%q): %d entries, error %v", p, len(es), err)
+		}
+		if e, err := changelog.ParseFileOne(p); err == nil || e != nil {
+			return fmt.Sprintf("FAIL changelog.ParseFileOne(%q): value %v, error %v", p, e != nil, err)
+		}
+		if d, _, err := deb.LoadFile(p); err == nil || d != nil {
+			return fmt.Sprintf("FAIL deb.LoadFile(%q): value %v, error %v", p, d != nil, err)
+		}
+	}
+	return "ok"
+}
+
 func fileEntryLaw(kind, text string) string {
 	if kind != "DSC" && kind != "Changes" && kind != "Control" {
 		return "ok"
@@ -734,7 +772,12 @@ func fileEntryLaw(kind, text string) string {
 
 func init() {
 	// law: debian/control through ParseControlFile (every spelling of the path) = ParseControl
-	codecImpl["law-ctlfile"] = func(a []string) string { return fileEntryLaw("Control", core.MustUnHex(a[0])) }
+	codecImpl["law-ctlfile"] = func(a []string) string {
+		if v := missingFileLaw(); v != "ok" {
+			return v
+		}
+		return fileEntryLaw("Control", core.MustUnHex(a[0]))
+	}
 }
 
 func init() {
@@ -823,6 +866,9 @@ func streamDocs(g *core.G) {
 		g.Emit("docctl", append(args, core.Hex(text))...)
 		if i%3 == 0 {
 			g.Emit("law-ctlfile", core.Hex(text))
+			// and a damaged file: both entry points agree on the error
+			p := r.Intn(len(text))
+			g.Emit("law-ctlfile", core.Hex(text[:p]+r.Pick([]string{"\nno colon here\n", "\n orphan\n\n: x\n", "\nVersion: 1 2\n"})+text[p:]))
 		}
 	}
 }
